@@ -1,0 +1,40 @@
+//go:build verif
+
+package value
+
+import (
+	"os"
+	"sync/atomic"
+	"time"
+)
+
+// VerifPoison makes Discard overwrite the discarded object with a sentinel and
+// keep it out of the pool, so that any later read of it becomes visible.
+var VerifPoison = os.Getenv("VERIF_POISON") != ""
+
+// VerifDiscards counts the objects handed to Discard.
+var VerifDiscards int64
+
+const VerifPoisonString = "\x00VERIF-POISON\x00"
+const VerifPoisonInteger = int64(-7777777777777777)
+const VerifPoisonFloat = float64(-7.777777777777777e+77)
+
+var verifPoisonTime = time.Date(1777, 7, 7, 7, 7, 7, 7, time.UTC)
+
+func verifDiscard(p Primary) bool {
+	atomic.AddInt64(&VerifDiscards, 1)
+	if !VerifPoison {
+		return false
+	}
+	switch v := p.(type) {
+	case *String:
+		v.literal = VerifPoisonString
+	case *Integer:
+		v.value = VerifPoisonInteger
+	case *Float:
+		v.value = VerifPoisonFloat
+	case *Datetime:
+		v.value = verifPoisonTime
+	}
+	return true
+}
